@@ -32,6 +32,10 @@ pub struct Case {
     pub imds: Option<GDoc>,
     pub hostga: Option<GDoc>,
     pub plans: Vec<Plan>,
+    /// rule sets (wireserver, imds, hostga) that replace the first ones after the last plan, while one connection of the first
+    /// eligible plan is still open: its next request is decided - blocked, recorded, relayed - under the NEW rules
+    #[serde(default)]
+    pub later: Option<(Option<GDoc>, Option<GDoc>, Option<GDoc>)>,
 }
 
 /// make names unique (first occurrence wins) so that the decision is fully specified
@@ -109,11 +113,12 @@ pub fn strategy() -> impl Strategy<Value = Case> {
         prop::option::weighted(0.9, gen::gdoc().prop_map(sanitize_doc)),
         prop::option::weighted(0.7, gen::gdoc().prop_map(sanitize_doc)),
         prop::collection::vec(plan(), 1..8),
+        prop::option::weighted(0.3, (prop::option::weighted(0.9, gen::gdoc().prop_map(sanitize_doc)), prop::option::weighted(0.9, gen::gdoc().prop_map(sanitize_doc)), prop::option::weighted(0.7, gen::gdoc().prop_map(sanitize_doc)))),
     )
-        .prop_map(|(ws, imds, hostga, plans)| Case { ws, imds, hostga, plans })
+        .prop_map(|(ws, imds, hostga, plans, later)| Case { ws, imds, hostga, plans, later })
 }
 
-pub const RULE: &str = "generator: one rule set (or none) per endpoint with unique names, each in a generated mode; a history of 1-7 request plans, each = caller (uid from the generated passwd, helper process; elevated for WireServer/HostGAPlugin so that denials come from the rules) (two pairs of helper processes share an executable and differ only in their command line) x method x URL (mostly bound to the destination's rule set, no duplicate query keys) repeated 1-11 times, sequentially or concurrently on separate connections (12% of the plans: the host resets the relayed request instead of answering - the client must get a 5xx and an audit denial is recorded all the same), or (second engine, 3% of the cases) with the first plan as a burst of 150-250 simultaneous denied connections (all opened, then all requests written, then all responses read), followed by the same number of denials handed to AgentStatusSharedState::add_one_failed_connection_summary by concurrent tasks of the agent's runtime. oracle: per request - enforce+deny => 403 and zero upstream bytes; audit+deny => relayed to the recorded destination with status 200; disabled/allowed => relayed; after the history the reference multiset denials[(user, destination ip, port, executable, command line, '403 Forbidden')] equals get_all_failed_connection_summary() (keys and counts) and the failedAuthenticateSummary of the status.json written by a real ProxyAgentStatusTask; one audit-denied request per case is re-sent with the rule set disabled and the two upstream requests must be equal except for the date value and MAC. non-trivial: history with >= 2 identical denials and denials from >= 2 callers in audit or enforce mode; distinct by hash of the case.";
+pub const RULE: &str = "generator: in 30% of the cases one connection of the first eligible plan is kept open, the three rule sets are replaced by other generated ones after the last plan, and one more request goes over that connection: it is blocked / relayed / recorded according to the NEW rule set and mode; one rule set (or none) per endpoint with unique names, each in a generated mode; a history of 1-7 request plans, each = caller (uid from the generated passwd, helper process; elevated for WireServer/HostGAPlugin so that denials come from the rules) (two pairs of helper processes share an executable and differ only in their command line) x method x URL (mostly bound to the destination's rule set, no duplicate query keys) repeated 1-11 times, sequentially or concurrently on separate connections (12% of the plans: the host resets the relayed request instead of answering - the client must get a 5xx and an audit denial is recorded all the same), or (second engine, 3% of the cases) with the first plan as a burst of 150-250 simultaneous denied connections (all opened, then all requests written, then all responses read), followed by the same number of denials handed to AgentStatusSharedState::add_one_failed_connection_summary by concurrent tasks of the agent's runtime. oracle: per request - enforce+deny => 403 and zero upstream bytes; audit+deny => relayed to the recorded destination with status 200; disabled/allowed => relayed; after the history the reference multiset denials[(user, destination ip, port, executable, command line, '403 Forbidden')] equals get_all_failed_connection_summary() (keys and counts) and the failedAuthenticateSummary of the status.json written by a real ProxyAgentStatusTask; one audit-denied request per case is re-sent with the rule set disabled and the two upstream requests must be equal except for the date value and MAC. non-trivial: history with >= 2 identical denials and denials from >= 2 callers in audit or enforce mode; distinct by hash of the case.";
 
 type Key = (String, String, u16, String, String, String);
 
@@ -140,6 +145,51 @@ fn read_status_json(dir: &str) -> Option<serde_json::Value> {
     serde_json::from_str(&text).ok()
 }
 
+/// one request on an open connection, with what reached the hosts meanwhile
+fn exchange_on(rig: &Rig, conn: &mut crate::rig::Conn, wire: &[u8], method: &str) -> crate::props::c01::Observed {
+    let before = rig.mock.bytes_by_listener();
+    let _ = rig.mock.take_requests();
+    let send_err = conn.send(wire).err().map(|e| e.to_string());
+    let resp = conn.read(method, std::time::Duration::from_secs(20));
+    let after = rig.mock.bytes_by_listener();
+    let mut delta = BTreeMap::new();
+    for (k, v) in &after {
+        let d = v - before.get(k).copied().unwrap_or(0);
+        if d > 0 {
+            delta.insert(k.clone(), d);
+        }
+    }
+    let requests = rig.mock.take_requests();
+    match resp {
+        Ok(r) => crate::props::c01::Observed { status: Some(r.status), delta, requests, client_error: None, response: Some(r) },
+        Err(e) => crate::props::c01::Observed { status: None, delta, requests, client_error: Some(format!("{:?} (send error: {:?})", e, send_err)), response: None },
+    }
+}
+
+/// verdict of the reference vs what was observed for one request on a kept-open connection
+fn judge_held(verdict: Verdict, o: &crate::props::c01::Observed, listener: &str, method: &str, target: &str, when: &str) -> Option<(String, String)> {
+    let status = o.status?;
+    match verdict {
+        Verdict::Block => {
+            if status != 403 {
+                return Some(("modes:enforced-denial-not-403".into(), format!("status {} for {} {} on a kept-open connection {}", status, method, target, when)));
+            }
+            if !o.delta.is_empty() || !o.requests.is_empty() {
+                return Some(("modes:enforced-denial-relayed".into(), format!("{:?} bytes upstream for {} {} on a kept-open connection {}", o.delta, method, target, when)));
+            }
+        }
+        _ => {
+            if status != 200 {
+                return Some((if verdict == Verdict::RelayWithAudit { "modes:audit-denial-not-relayed" } else { "modes:allowed-request-not-relayed" }.into(), format!("status {} for {} {} on a kept-open connection {} (verdict {:?})", status, method, target, when, verdict)));
+            }
+            if o.requests.len() != 1 || o.requests[0].listener != listener || o.requests[0].target != target {
+                return Some(("modes:relay-differs".into(), format!("expected one {} {} at {} on a kept-open connection {}, host saw {:?}", method, target, listener, when, o.requests.iter().map(|r| (&r.listener, &r.method, &r.target)).collect::<Vec<_>>())));
+            }
+        }
+    }
+    None
+}
+
 pub fn eval(rig: &Rig, st: &StatusTask, case: &Case, stats: &mut Stats) -> Outcome {
     rig.set_rules(case.ws.as_ref(), case.imds.as_ref(), case.hostga.as_ref());
     rig.set_key(None);
@@ -154,6 +204,7 @@ pub fn eval(rig: &Rig, st: &StatusTask, case: &Case, stats: &mut Stats) -> Outco
     let mut audit_probe: Option<(Plan, String)> = None;
     let mut identical_denials = false;
     let mut total_requests = 0u64;
+    let mut held: Option<(crate::rig::Conn, Plan, String, Vec<u8>)> = None;
 
     for plan in &case.plans {
         let d = dest_of(plan.rec.dest);
@@ -190,6 +241,22 @@ pub fn eval(rig: &Rig, st: &StatusTask, case: &Case, stats: &mut Stats) -> Outco
             stats.class("plan:host-resets-the-relayed-request");
         }
         let wire = crate::rawhttp::request_head(&plan.method, &target, &wire_headers);
+        if held.is_none() && case.later.is_some() && !plan.upstream_fails && plan.repeat < 100 {
+            // one more request of this plan, on a connection that then stays open across the rule change at the end
+            if let Ok(mut c) = rig.open(Some(rig.entry_of(&plan.rec)), 0) {
+                let o = exchange_on(rig, &mut c, &wire, &plan.method);
+                total_requests += 1;
+                if let Some((sig, d)) = judge_held(verdict, &o, plan.rec.dest.listener().unwrap_or(""), &plan.method, &target, "before the rule change") {
+                    return Outcome::fail(sig, d);
+                }
+                if o.status.is_some() {
+                    if verdict != Verdict::Relay {
+                        *want.entry(key.clone()).or_insert(0) += 1;
+                    }
+                    held = Some((c, plan.clone(), target.clone(), wire.clone()));
+                }
+            }
+        }
         let n = plan.repeat.max(1) as usize;
         total_requests += n as u64;
         if n >= 100 {
@@ -280,6 +347,44 @@ pub fn eval(rig: &Rig, st: &StatusTask, case: &Case, stats: &mut Stats) -> Outco
                 }
             }
         }
+    }
+    // the rule sets are replaced while one connection is still open: its next request is decided under the new ones
+    if let (Some((mut c, plan, target, wire)), Some(later)) = (held.take(), case.later.as_ref()) {
+        rig.set_rules(later.0.as_ref(), later.1.as_ref(), later.2.as_ref());
+        let d = dest_of(plan.rec.dest);
+        let rules2 = match d {
+            Dest::WireServer => later.0.as_ref(),
+            Dest::GaPlugin => later.2.as_ref(),
+            Dest::Imds => later.1.as_ref(),
+            _ => None,
+        };
+        let claims = rig.claims_of(&plan.rec);
+        let (adm, underspec) = authz::authorize(d, &claims, &target, rules2);
+        if underspec || adm.len() != 1 {
+            stats.class("kept-open-connection:decision-underspecified-under-the-new-rules");
+        } else {
+            let verdict2 = *adm.iter().next().unwrap();
+            let o = exchange_on(rig, &mut c, &wire, &plan.method);
+            if o.status.is_none() {
+                stats.class("kept-open-connection:closed-by-the-proxy-meanwhile");
+            } else {
+                stats.class(&format!("kept-open-connection:request-after-the-rule-change:{:?}", verdict2));
+                total_requests += 1;
+                if let Some((sig, d)) = judge_held(verdict2, &o, plan.rec.dest.listener().unwrap_or(""), &plan.method, &target, "after the rule sets were replaced") {
+                    crate::rawhttp::close_abortive(c.stream);
+                    return Outcome::fail(sig, d);
+                }
+                if verdict2 != Verdict::Relay {
+                    let (ip, port) = plan.rec.dest.addr();
+                    let key: Key = (claims.user.clone(), format!("{}.{}.{}.{}", ip[0], ip[1], ip[2], ip[3]), port, claims.exe.clone(), claims.cmdline.clone(), "403 Forbidden".to_string());
+                    *want.entry(key).or_insert(0) += 1;
+                }
+            }
+        }
+        crate::rawhttp::close_abortive(c.stream);
+    }
+    if let Some((c, ..)) = held.take() {
+        crate::rawhttp::close_abortive(c.stream);
     }
     // burst cases: the same number of denials handed to the recording API at once, the way the request
     // handlers do it (tasks of the agent's runtime, each awaiting its own call; a failed call is only logged)
